@@ -48,6 +48,43 @@ CHECKS = {
         note="Trusts: FOK VWAP tolerance 0.005; prices/sizes outside the menu not covered; maximal fill is not demanded.",
         section="6/C05",
     ),
+    "C04": dict(
+        engine="E1 simx",
+        technique="explicit-state BFS with canonical-state dedup + deviation-bounded enumeration of histories, each executed as a complete real FlumineSimulation.run(); ledger invariants at every strategy callback",
+        text="All histories of <=3 (thorough 4) ticks over an alphabet of ~40 letters (market events: trades at/through/behind the limit, ladder change, suspend/re-open, turn in-play with SP, "
+        "runner removal, close; actions: 14 limit-order flavours incl. FOK/persistence/market-version, full/partial/oversize cancel, replace, update) and all histories with <=2 (3) deviations over "
+        "horizon 7, in fast (200 ms) and slow (100 ms: requests in flight across events) regimes, with best-price execution off and full-match mode; an independent bucket ledger is checked after "
+        "the simulation middleware, in process_orders and at the end of every update.",
+        note="Bounds: <=4 ticks dense / <=3 deviations sparse, <=3 orders, the menu's prices and sizes. Orders in VIOLATION (never sent) and the completion flag at the CLOSED update are outside.",
+        section="6/C04",
+    ),
+    "C03": dict(
+        engine="E1 simx",
+        technique="explicit-state BFS with canonical-state dedup + deviation-bounded enumeration over the real simulated exchange; every _update_status call and every request judged against the lifecycle relation",
+        text="Same exploration engine as C04 with a request-heavy alphabet (every request kind on two orders, valid and invalid arguments, two requests in one callback, requests issued together "
+        "with the event that completes the order) in fast/slow/no-persistence regimes; every status change is recorded with its flumine call site and compared with the documented relation, every "
+        "request is judged against the acceptance rule with a before/after snapshot, and finality of completed orders is watched at every callback.",
+        note="Simulated exchange only so far (live Betfair/Betdaq doubles are served by the E2 checks C11/C12); bounds as in C04.",
+        section="6/C03",
+    ),
+    "C10": dict(
+        engine="E1 simx",
+        technique="explicit-state BFS with canonical-state dedup + deviation-bounded enumeration per accounting configuration; runner/trade accounting recounted from the blotter after every update",
+        text="Six configurations of (max_trade_count, max_live_trade_count, multi_order_trades, reset_seconds, place_reset_seconds) x histories of placements (new trade, same trade, inside `with trade:`, "
+        "two per callback, replacement), fills, cancels, lapses, voids, failed placements with 0.5 s / 2 s spacing; live/trade counts, trade completion, limits and cool-downs at each accepted placement, "
+        "and lock-out at each refused one, are judged from the real order states.",
+        note="Orders added to an already COMPLETE trade and pending_orders trades are outside; simulated exchange only so far.",
+        section="6/C10",
+    ),
+    "C15": dict(
+        engine="E1 simx",
+        technique="explicit-state BFS with canonical-state dedup + deviation-bounded enumeration; all blotter views compared with a shadow list after every update",
+        text="Two strategies on two clients placing on two selections and a handicap line of one market: placements, replacements (new order objects under new bet ids), cancels, fills, removal, closure; "
+        "after every update every view (strategy, strategy+selection+handicap, client, client+strategy, trade, bet id for replacements), the live list, the id/bet-id lookups and the status/matched filters "
+        "are compared with a shadow list of accepted orders.",
+        note="Simulation only so far; adoption from the order stream belongs to the E2 part.",
+        section="6/C15",
+    ),
 }
 
 PENDING_REASON = "check not built yet in this session (work in progress; see DESIGN.md section 8 for the order of work)"
